@@ -50,7 +50,7 @@ def toy(p):
 def term(c):
     opening = {0: "None", 1: "Some None", 2: "Some (%s)" % toy(c["openp"])}[c["opening"]]
     insts = "[(7%%N, [%s])]" % ";".join(toy(p) for p in c["insts"]) if c.get("insts") else "[]"
-    st = "{| f_mode := md %d; f_pnone := %s; f_opening := %s; f_insts := %s; f_cap := %d |}" % (
+    st = "{| f_mode := md %d; f_pnone := %s; f_opening := %s; f_insts := %s; f_cap := %d; f_last := None |}" % (
         c["mode"], "true" if c["pnone"] else "false", opening, insts, c["cap"])
     fr = []
     for f in c["frames"]:
